@@ -495,6 +495,142 @@ pub fn stats(d: &Db, c: &Chain) -> Stats {
     Stats { defined: spec != Res::Undef, spec_error: spec == Res::Err, interesting: (depth > 0 || !c.rest.is_empty()) && has_rows, depth, shape, features: f }
 }
 
-/// rough finding class of a case (0 = none); mirrors coq/Model/SubqClass.v closely enough to tag
-/// the failures that `search` reports
-pub fn rough_class(_d: &Db, _c: &Chain) -> i64 { 0 }
+// ------------------------------------------------------------------ finding classes (mirror of coq/Model/SubqClass.v)
+fn has_sub(e: &Sx) -> bool { e.has_subquery() }
+fn has_inex(e: &Sx) -> bool {
+    match e {
+        Sx::Col { .. } | Sx::Lit(_) | Sx::Scalar(_) => false,
+        Sx::Arith(_, a, b) | Sx::Cmp(_, a, b) | Sx::And(a, b) | Sx::Or(a, b) => has_inex(a) || has_inex(b),
+        Sx::Not(a) | Sx::IsNull(_, a) => has_inex(a),
+        Sx::In(..) | Sx::Exists(..) => true,
+    }
+}
+fn own_outer(e: &Sx) -> bool {
+    match e {
+        Sx::Col { lvl, .. } => *lvl != 0,
+        Sx::Lit(_) => false,
+        Sx::Arith(_, a, b) | Sx::Cmp(_, a, b) | Sx::And(a, b) | Sx::Or(a, b) => own_outer(a) || own_outer(b),
+        Sx::Not(a) | Sx::IsNull(_, a) => own_outer(a),
+        Sx::In(_, a, _) => own_outer(a),
+        Sx::Exists(..) | Sx::Scalar(_) => false,
+    }
+}
+fn scalars_of<'a>(e: &'a Sx, out: &mut Vec<&'a Qry>) {
+    match e {
+        Sx::Col { .. } | Sx::Lit(_) | Sx::In(..) | Sx::Exists(..) => {}
+        Sx::Arith(_, a, b) | Sx::Cmp(_, a, b) | Sx::And(a, b) | Sx::Or(a, b) => { scalars_of(a, out); scalars_of(b, out); }
+        Sx::Not(a) | Sx::IsNull(_, a) => scalars_of(a, out),
+        Sx::Scalar(q) => out.push(q),
+    }
+}
+/// decorrelate.rs: (is_in, negated, lhs, first item, table, subquery WHERE)
+struct Dec<'a> { is_in: bool, neg: bool, a: Option<&'a Sx>, item: Option<&'a Sx>, k: usize, w: Option<&'a Sx> }
+fn decor(p: &Sx) -> Option<Dec<'_>> {
+    match p {
+        Sx::Exists(neg, q) => match &**q { Qry::Sel { src: Src::Base(k), w, .. } => Some(Dec { is_in: false, neg: *neg, a: None, item: None, k: *k, w: w.as_ref() }), _ => None },
+        Sx::In(neg, a, q) => match &**q {
+            Qry::Sel { items, src: Src::Base(k), w } if !items.is_empty() => Some(Dec { is_in: true, neg: *neg, a: Some(a), item: Some(&items[0]), k: *k, w: w.as_ref() }),
+            _ => None,
+        },
+        Sx::And(a, b) => decor(a).or_else(|| decor(b)),
+        _ => None,
+    }
+}
+fn idx_by_name(lw: usize, rw: usize, i: usize) -> Option<usize> { if i < lw { Some(i) } else if i < rw { Some(lw + i) } else { None } }
+fn key_idx(lw: usize, rw: usize, l: usize, i: usize, q: bool) -> Option<usize> {
+    if q {
+        match l { 0 => if i < rw { Some(lw + i) } else { idx_by_name(lw, rw, i) }, 1 => if i < lw { Some(i) } else { idx_by_name(lw, rw, i) }, _ => idx_by_name(lw, rw, i) }
+    } else { idx_by_name(lw, rw, i) }
+}
+/// a conjunct `column = column`: Some(pairs one outer with one inner column, each resolved on its own side)
+fn key_ok(lw: usize, rw: usize, a: (usize, usize, bool), b: (usize, usize, bool)) -> bool {
+    let side_ok = |c: (usize, usize, bool)| key_idx(lw, rw, c.0, c.1, c.2) == Some(if c.0 == 0 { lw + c.1 } else { c.1 }) && c.0 <= 1;
+    match (key_idx(lw, rw, a.0, a.1, a.2), key_idx(lw, rw, b.0, b.1, b.2)) {
+        (Some(x), Some(y)) => ((x < lw) != (y < lw)) && side_ok(a) && side_ok(b),
+        _ => false,
+    }
+}
+/// (has some column = column conjunct, every conjunct is a usable key)
+fn keys_of(lw: usize, rw: usize, e: &Sx) -> (bool, bool) {
+    match e {
+        Sx::And(a, b) => { let (h1, p1) = keys_of(lw, rw, a); let (h2, p2) = keys_of(lw, rw, b); (h1 || h2, p1 && p2) }
+        Sx::Cmp(CmpOp::Eq, a, b) => match (&**a, &**b) {
+            (Sx::Col { lvl: l1, i: i1, qual: q1 }, Sx::Col { lvl: l2, i: i2, qual: q2 }) => (true, key_ok(lw, rw, (*l1, *i1, *q1), (*l2, *i2, *q2))),
+            _ => (false, false),
+        },
+        _ => (false, false),
+    }
+}
+fn scalar_class(d: &Db, q: &Qry) -> i64 {
+    match q {
+        Qry::Sel { items, src: Src::Base(_), w } if items.len() == 1 && matches!(items[0], Sx::Col { lvl: 0, .. }) => {
+            if let Some(p) = w { if own_outer(p) { return 10; } if has_sub(p) { return 11; } }
+            match qeval(d, &[], q) { Res::Ok(t) if t.len() >= 2 => 12, _ => 0 }
+        }
+        Qry::Sel { items, .. } if items.len() == 1 && matches!(items[0], Sx::Col { .. }) && !matches!(items[0], Sx::Col { lvl: 0, .. }) => 10,
+        _ => 11,
+    }
+}
+fn where_class(d: &Db, lw: usize, p: &Sx) -> i64 {
+    match decor(p) {
+        Some(dc) => {
+            if !matches!(p, Sx::In(..) | Sx::Exists(..)) { return 5; }
+            if dc.is_in && dc.neg { return 6; }
+            let rw = match d.tables.get(dc.k) { Some(t) => t.cols.len(), None => return 0 };
+            // the join condition: [lhs = item AND] WHERE, seen from inside the subquery
+            let (mut has_key, mut pure, mut sub) = (false, true, false);
+            if dc.is_in {
+                let a = dc.a.unwrap();
+                let it = dc.item.unwrap();
+                sub |= has_sub(a) || has_sub(it);
+                match (a, it) {
+                    (Sx::Col { lvl, i, qual }, Sx::Col { i: j, qual: q2, lvl: l2 }) => {
+                        has_key = true;
+                        let itc = if !*q2 { (0usize, *j, true) } else { (*l2, *j, true) };
+                        pure &= key_ok(lw, rw, (lvl + 1, *i, *qual), itc);
+                    }
+                    _ => { pure = false; }
+                }
+            }
+            if let Some(w) = dc.w { let (h, pk) = keys_of(lw, rw, w); has_key |= h; pure &= pk; sub |= has_sub(w); }
+            else if !dc.is_in { return 0; }
+            if has_key { if pure { 0 } else { 7 } } else if sub { 8 } else { 0 }
+        }
+        None => {
+            if has_inex(p) { return 9; }
+            let mut qs = vec![];
+            scalars_of(p, &mut qs);
+            for q in qs { let k = scalar_class(d, q); if k != 0 { return k; } }
+            0
+        }
+    }
+}
+fn derived_simple(q: &Qry) -> bool {
+    match q {
+        Qry::Sel { items, src, w: Some(p) } => !has_sub(p) && items.iter().all(|it| matches!(it, Sx::Col { lvl: 0, .. }))
+            && match src { Src::Base(_) => true, Src::Sub(q2) => derived_simple(q2) },
+        _ => false,
+    }
+}
+fn leaf_has_sub(q: &Qry) -> bool {
+    match q { Qry::Sel { items, w, .. } => items.iter().any(has_sub) || w.as_ref().map(has_sub).unwrap_or(false), Qry::Set(..) => true }
+}
+/// finding class of a case (0 = none); mirrors coq/Model/SubqClass.v
+pub fn rough_class(d: &Db, c: &Chain) -> i64 {
+    if !c.rest.is_empty() {
+        if leaf_has_sub(&c.first) || c.rest.iter().any(|(_, _, q)| leaf_has_sub(q)) { return 3; }
+        if c.parse_std() != c.parse_right() { return 2; }
+        if c.rest.iter().any(|(k, all, _)| *all && *k != SetK::Union) { return 1; }
+        return 0;
+    }
+    match &c.first {
+        Qry::Sel { items, src, w } => {
+            if items.iter().any(has_sub) { return 4; }
+            match src {
+                Src::Base(k) => match (w, d.tables.get(*k)) { (Some(p), Some(t)) => where_class(d, t.cols.len(), p), _ => 0 },
+                Src::Sub(q2) => if derived_simple(q2) && w.as_ref().map(|p| !has_sub(p)).unwrap_or(true) { 0 } else { 13 },
+            }
+        }
+        Qry::Set(..) => 0,
+    }
+}
